@@ -3,7 +3,7 @@ import ast
 
 from .program import ClassInfo, ExtClass, FuncInfo
 from .values import (V, Const, Sym, CRef, FRef, MRef, ERef, BRef, Bound,
-                     BoundB, Obj, Tup, App, New, Coll, Part, Raise)
+                     BoundB, Obj, Tup, App, New, Coll, Part, Raise, walk)
 
 CMP = {ast.Eq: '==', ast.NotEq: '!=', ast.Lt: '<', ast.LtE: '<=',
        ast.Gt: '>', ast.GtE: '>=', ast.Is: 'is', ast.IsNot: 'is not',
@@ -23,6 +23,63 @@ LIST_MUTATORS = ('append', 'extend', 'pop', 'remove', 'insert', 'sort',
                  'reverse', 'clear')
 DICT_MUTATORS = ('update', 'pop', 'clear', 'setdefault', 'popitem')
 MUTATORS = set(SET_MUTATORS + LIST_MUTATORS + DICT_MUTATORS)
+
+
+# documented hierarchy of the third-party exception classes the package
+# handles (lark 0.12 `lark.exceptions`): name -> direct bases
+EXT_EXC_BASES = {
+    'lark.exceptions.LarkError': ('Exception',),
+    'lark.exceptions.ParseError': ('lark.exceptions.LarkError',),
+    'lark.exceptions.LexError': ('lark.exceptions.LarkError',),
+    'lark.exceptions.UnexpectedInput': ('lark.exceptions.LarkError',),
+    'lark.exceptions.UnexpectedEOF': ('lark.exceptions.ParseError',
+                                      'lark.exceptions.UnexpectedInput'),
+    'lark.exceptions.UnexpectedCharacters': (
+        'lark.exceptions.LexError', 'lark.exceptions.UnexpectedInput'),
+    'lark.exceptions.UnexpectedToken': ('lark.exceptions.ParseError',
+                                        'lark.exceptions.UnexpectedInput'),
+    'Exception': ('BaseException',),
+}
+
+
+def _ext_ancestors(name):
+    out = set([name])
+    todo = [name]
+    while todo:
+        n = todo.pop()
+        for b in EXT_EXC_BASES.get(n, ()):
+            if b not in out:
+                out.add(b)
+                todo.append(b)
+    return out
+
+
+def _exc_name(cv):
+    if isinstance(cv, ERef):
+        return cv.name
+    if isinstance(cv, CRef) and isinstance(cv.ci, ExtClass):
+        return cv.ci.name
+    return None
+
+
+def exc_isinstance(caught, cv):
+    """is an exception caught by `except <caught>` an instance of cv?
+    True / False / None (unknown)"""
+    if caught == cv:
+        return True
+    if isinstance(caught, CRef) and isinstance(cv, CRef) and \
+            isinstance(caught.ci, ClassInfo):
+        if caught.ci.is_subclass_of(cv.ci):
+            return True
+        return None
+    a, b = _exc_name(caught), _exc_name(cv)
+    if a in EXT_EXC_BASES and b is not None:
+        if b in _ext_ancestors(a):
+            return True
+        if b in EXT_EXC_BASES and a not in _ext_ancestors(b):
+            # unrelated documented classes (no common subclass in lark)
+            return False
+    return None
 
 
 class BuiltinsMixin(object):
@@ -139,9 +196,18 @@ class BuiltinsMixin(object):
                 # simple; fork otherwise
                 a = self.eval(node.body, fr, p.fork())
                 b = self.eval(node.orelse, fr, p.fork())
-                if len(a) == 1 and len(b) == 1 and \
-                        not isinstance(a[0][1], Raise) and \
-                        not isinstance(b[0][1], Raise):
+                def pure(res):
+                    # one outcome, no exception, nothing allocated, logged
+                    # or assumed while evaluating the arm
+                    if len(res) != 1 or isinstance(res[0][1], Raise):
+                        return False
+                    q, v = res[0]
+                    if len(q.log) != len(p.log) or len(q.pc) != len(p.pc) \
+                            or len(q.heap) != len(p.heap):
+                        return False
+                    return not any(isinstance(x, Obj) and x.oid not in p.heap
+                                   for x in walk(v))
+                if pure(a) and pure(b):
                     out.append((p, App('ite', c, a[0][1], b[0][1])))
                 else:
                     for (q, tr) in self.branch(c, p):
@@ -333,19 +399,26 @@ class BuiltinsMixin(object):
             return path.heap[v.oid].kind == 'set'
         return False
 
-    def str_format(self, style, template, args, path, node):
+    def str_format(self, style, template, args, path, node, kw=()):
         """keep format strings symbolic but with inlined __str__ of package
         objects"""
         sargs = []
         for a in args:
             sargs.append(self.to_str(a, path, node))
-        if all(isinstance(a, Const) for a in sargs):
+        skw = [(k, self.to_str(a, path, node)) for (k, a) in (kw or ())]
+        if all(isinstance(a, Const) for a in sargs) and \
+                all(k is not None and isinstance(a, Const)
+                    for (k, a) in skw):
             try:
                 if style == '%':
                     return Const(template % tuple(a.v for a in sargs))
-                return Const(template.format(*[a.v for a in sargs]))
+                return Const(template.format(
+                    *[a.v for a in sargs], **{k: a.v for (k, a) in skw}))
             except Exception:
                 return App('fmt-error', Const(template), Tup(sargs))
+        if skw:
+            return App('fmtkw', Const(template), Tup(sargs),
+                       Tup([Tup((Const(k), a)) for (k, a) in skw]))
         return App('fmt', Const(style), Const(template), Tup(sargs))
 
     def to_str(self, v, path, node):
@@ -509,6 +582,9 @@ class BuiltinsMixin(object):
             if isinstance(a, Const):
                 return a.v is None
             if isinstance(a, Sym) and a.typ is not None:
+                return False
+            if isinstance(a, App) and a.op in ('fmt', 'concat', 'str',
+                                               'join', 'strrep'):
                 return False
             return None
         if isinstance(a, Obj) and isinstance(b, Obj):
@@ -1150,7 +1226,50 @@ class BuiltinsMixin(object):
         return out
 
     def ex_JoinedStr(self, node, fr, path):
-        self.inconclusive('f-string', node)
+        """f'..{a}..{b!s}..' is the concatenation of the literal pieces and
+        str() of the values (same summary as '..{}..{}..'.format(a, b))"""
+        exprs = []
+        for v in node.values:
+            if isinstance(v, ast.FormattedValue):
+                if v.format_spec is not None or v.conversion not in (-1, 115):
+                    self.inconclusive('f-string with conversion / format '
+                                      'spec', node)
+                exprs.append(v.value)
+        out = []
+        for (p, vals) in self.eval_seq(exprs, fr, path):
+            if isinstance(vals, Raise):
+                out.append((p, vals))
+                continue
+            vals = list(vals)
+            pieces = []
+            for v in node.values:
+                if isinstance(v, ast.FormattedValue):
+                    pieces.append(self.to_str(vals.pop(0), p, node))
+                else:
+                    pieces.append(Const(v.value))
+            if all(isinstance(x, Const) for x in pieces):
+                out.append((p, Const(''.join(str(x.v) for x in pieces))))
+                continue
+            tmpl = ''
+            args = []
+            simple = True
+            for x, v in zip(pieces, node.values):
+                if isinstance(v, ast.FormattedValue):
+                    tmpl += '{}'
+                    args.append(x)
+                else:
+                    if '{' in x.v or '}' in x.v:
+                        simple = False
+                    tmpl += x.v
+            if simple:
+                out.append((p, App('fmt', Const('{}'), Const(tmpl),
+                                   Tup(args))))
+                continue
+            acc = None
+            for x in pieces:
+                acc = x if acc is None else App('concat', acc, x)
+            out.append((p, acc if acc is not None else Const('')))
+        return out
 
     def ex_Starred(self, node, fr, path):
         self.inconclusive('starred expression', node)
@@ -1164,6 +1283,9 @@ class BuiltinsMixin(object):
         classes = list(c.items) if isinstance(c, Tup) else [c]
         results = []
         for cv in classes:
+            if isinstance(v, Sym) and v.meta and v.meta[0] == 'exc-class':
+                results.append(exc_isinstance(v.meta[1], cv))
+                continue
             if not isinstance(cv, CRef):
                 results.append(None)
                 continue
@@ -1217,6 +1339,21 @@ class BuiltinsMixin(object):
                 if (not pol) and ci.is_subclass_of(k):
                     return False
         return None
+
+    def bi_enumerate(self, args, kw, path, node):
+        start = dict(kw).get('start', args[1] if len(args) > 1 else Const(0))
+        items = self.concrete_iter(args[0], path) if args else None
+        if items is not None and isinstance(start, Const) and \
+                isinstance(start.v, int):
+            return [(path, Tup(tuple(Tup((Const(start.v + i), x))
+                                     for i, x in enumerate(items))))]
+        return [(path, App('call', BRef('enumerate'), Tup(tuple(args))))]
+
+    def bi_zip(self, args, kw, path, node):
+        lists = [self.concrete_iter(a, path) for a in args]
+        if args and all(l is not None for l in lists):
+            return [(path, Tup(tuple(Tup(tuple(t)) for t in zip(*lists))))]
+        return [(path, App('call', BRef('zip'), Tup(tuple(args))))]
 
     def bi_issubclass(self, args, kw, path, node):
         a, b = args
@@ -1414,7 +1551,7 @@ class BuiltinsMixin(object):
             if h.kind in ('list', 'set', 'dict'):
                 return self.container_method(recv, name, args, path, node)
         if isinstance(recv, Const) and isinstance(recv.v, str):
-            return self.str_method(recv, name, args, path, node)
+            return self.str_method(recv, name, args, path, node, kw)
         if isinstance(recv, App) and recv.op == 'superext':
             base, obj = recv.args
             if name == '__new__' and args and isinstance(args[0], CRef):
@@ -1447,11 +1584,10 @@ class BuiltinsMixin(object):
                 [self.to_str(a, path, node) for a in args])))]
         return [(path, App('mcall', recv, Const(name), Tup(args)))]
 
-    def str_method(self, recv, name, args, path, node):
+    def str_method(self, recv, name, args, path, node, kw=()):
         if name == 'format':
-            if kw_free(args):
-                return [(path, self.str_format('{}', recv.v, args, path,
-                                               node))]
+            return [(path, self.str_format('{}', recv.v, args, path, node,
+                                           kw))]
         if name == 'join' and len(args) == 1:
             items = self.concrete_iter(args[0], path)
             if items is not None:
